@@ -529,6 +529,10 @@ impl<S: Storage> Builder<S> {
             .register(id, span.clone(), output_row_counter.clone());
 
         let (tx, rx) = async_broadcast::broadcast(16);
+        // Deactivate the receiver before the producer task starts: with only inactive receivers
+        // `broadcast` waits for a subscriber, while items sent to this (never polled) active
+        // receiver would be lost to every stream subscribed later.
+        let rx = rx.deactivate();
         let handle = tokio::task::Builder::default()
             .name(&format!("{id}.{name}"))
             .spawn(
@@ -549,7 +553,7 @@ impl<S: Storage> Builder<S> {
             .expect("failed to spawn task");
 
         StreamSubscriber {
-            rx: rx.deactivate(),
+            rx,
             handle: Arc::new(AbortOnDropHandle(handle)),
         }
     }
